@@ -7,6 +7,7 @@ import (
 	"fmt"
 	"os"
 	"sort"
+	"strings"
 	"testing"
 	"testing/synctest"
 	"time"
@@ -96,13 +97,27 @@ func execute(t *testing.T, h Harness, k Knobs, prog, sched *simrt.Stream, keep i
 	var res *simrt.Result
 	cfg := simrt.Config{Strategy: k.Strategy, StayProb: k.StayProb, TimerProb: k.TimerProb, PCTDepth: k.PCTDepth, PCTLen: k.PCTLen,
 		MaxSteps: *fSteps, KeepEvents: keep}
-	func() {
-		defer func() { _ = recover() }() // end-of-bubble deadlock panic when tasks are left blocked
+	// A goroutine of its own: synctest.Test ends the calling goroutine (t.FailNow) when the testing
+	// package notices a race-detector report during the bubble, and panics when tasks are left
+	// blocked at the end of the bubble.
+	done := make(chan struct{})
+	go func() {
+		defer close(done)
+		defer func() { _ = recover() }()
 		synctest.Test(t, func(t *testing.T) {
 			res = simrt.Run(cfg, prog, sched, h.Run)
 		})
 	}()
+	<-done
 	o := outcome{res: res, prog: append([]uint32(nil), prog.Used()...), sched: append([]uint32(nil), sched.Used()...)}
+	if simrt.RaceEnabled {
+		if rep, libRace, harnessOnly := newRaceReports(); libRace {
+			o.check, o.msg = "C11.data-race", rep
+			return o
+		} else if harnessOnly > 0 && res != nil {
+			res.Anomalies["race_report_harness_frames_only"] += harnessOnly
+		}
+	}
 	if res == nil {
 		o.check, o.msg = "infrastructure", "simulation did not return a result"
 		return o
@@ -290,7 +305,7 @@ func TestWorker(t *testing.T) {
 		if *fDetEvery > 0 && n%*fDetEvery == 0 {
 			o2 := execute(t, h, k, simrt.ReplayStream(o.prog), simrt.ReplayStream(o.sched), 0)
 			sum.DetChecks++
-			if o2.res == nil || o2.res.Hash != r.Hash || o2.check != o.check {
+			if o2.res == nil || o2.res.Hash != r.Hash || (o2.check != o.check && !simrt.RaceEnabled) {
 				h2 := uint64(0)
 				if o2.res != nil {
 					h2 = o2.res.Hash
@@ -320,6 +335,117 @@ func TestWorker(t *testing.T) {
 	emit(sum)
 }
 
+// race detector reports are appended to $BBSIM_RACELOG.<pid>; newRaceReports returns the reports
+// written since the last call that involve library code or the payload accessors.
+var raceLogOff int64
+
+func newRaceReports() (string, bool, int) {
+	prefix := os.Getenv("BBSIM_RACELOG")
+	if prefix == "" {
+		return "", false, 0
+	}
+	path := fmt.Sprintf("%s.%d", prefix, os.Getpid())
+	b, err := os.ReadFile(path)
+	if err != nil || int64(len(b)) <= raceLogOff {
+		return "", false, 0
+	}
+	txt := string(b[raceLogOff:])
+	raceLogOff = int64(len(b))
+	lib, harnessOnly := "", 0
+	for _, blk := range strings.Split(txt, "==================") {
+		if !strings.Contains(blk, "DATA RACE") {
+			continue
+		}
+		tops := raceTopFrames(blk)
+		simInternal, libFrame, wr, rd := false, false, 0, 0
+		for _, f := range tops {
+			switch {
+			case strings.HasPrefix(f, "bbsim/simrt.") || strings.HasPrefix(f, "bbsim/shim/"):
+				simInternal = true
+			case strings.HasPrefix(f, "bbsimrun/bigbuff.") || strings.HasPrefix(f, "bbsimrun/simctx."):
+				libFrame = true
+			case strings.HasPrefix(f, "bbsimrun/harness.c11Write"):
+				wr++
+			case strings.HasPrefix(f, "bbsimrun/harness.c11Read"):
+				rd++
+			}
+		}
+		switch {
+		case simInternal || len(tops) < 2:
+			// an access to simulator state (maps and slice growth are checked inside the runtime
+			// whatever the compile flags): not the program's memory
+			harnessOnly++
+		case libFrame || (wr >= 1 && wr+rd >= 2):
+			if lib == "" {
+				lib = trimRace(blk)
+			}
+		default:
+			harnessOnly++
+		}
+	}
+	return lib, lib != "", harnessOnly
+}
+
+// raceTopFrames returns, for each of the two accesses of a report, the first frame that is not in
+// the runtime: the code that performed the access.
+func raceTopFrames(blk string) []string {
+	var tops []string
+	lines := strings.Split(blk, "\n")
+	for i := 0; i < len(lines); i++ {
+		t := strings.TrimSpace(lines[i])
+		isHdr := (strings.HasPrefix(t, "Read at ") || strings.HasPrefix(t, "Write at ") || strings.HasPrefix(t, "Previous read at ") ||
+			strings.HasPrefix(t, "Previous write at ") || strings.HasPrefix(t, "Atomic ") || strings.HasPrefix(t, "Previous atomic ")) && strings.HasSuffix(t, ":")
+		if !isHdr {
+			continue
+		}
+		for j := i + 1; j < len(lines); j++ {
+			f := strings.TrimSpace(lines[j])
+			if f == "" {
+				break
+			}
+			if strings.HasPrefix(f, "/") || strings.HasPrefix(f, "<autogenerated>") {
+				continue
+			}
+			if strings.HasPrefix(f, "runtime.") || strings.HasPrefix(f, "internal/") || strings.HasPrefix(f, "reflect.") || strings.HasPrefix(f, "sync/atomic.") {
+				continue
+			}
+			tops = append(tops, f)
+			break
+		}
+	}
+	return tops
+}
+
+func trimRace(blk string) string {
+	var out []string
+	for _, l := range strings.Split(blk, "\n") {
+		t := strings.TrimSpace(l)
+		if t == "" {
+			continue
+		}
+		if strings.HasPrefix(t, "/") {
+			// keep file:line, drop the scratch directory
+			if k := strings.Index(t, "/bbsim-"); k >= 0 {
+				if j := strings.Index(t[k+1:], "/"); j >= 0 {
+					t = t[k+1+j+1:]
+				}
+			}
+			if k := strings.Index(t, " +0x"); k >= 0 {
+				t = t[:k]
+			}
+			if len(out) > 0 {
+				out[len(out)-1] += "  @" + t
+			}
+			continue
+		}
+		out = append(out, t)
+		if len(out) > 40 {
+			break
+		}
+	}
+	return strings.Join(out, "\n")
+}
+
 func firstN(s []string, n int) []string {
 	if len(s) > n {
 		return s[:n]
@@ -333,6 +459,9 @@ func firstN(s []string, n int) []string {
 func buildReplay(t *testing.T, h Harness, k Knobs, idx int, runSeed uint64, o outcome) *ReplayFile {
 	prog, sched := o.prog, o.sched
 	budget := *fMinimize
+	if simrt.RaceEnabled {
+		budget = 0 // the detector reports each distinct race once per process: re-execution cannot confirm it
+	}
 	execs := 0
 	try := func(p, s []uint32) (outcome, bool) {
 		if execs >= budget {
@@ -423,6 +552,9 @@ func buildReplay(t *testing.T, h Harness, k Knobs, idx int, runSeed uint64, o ou
 	}
 	// final execution with the trace kept
 	final := execute(t, h, k, simrt.ReplayStream(prog), simrt.ReplayStream(sched), 4000)
+	if simrt.RaceEnabled && final.check == "" {
+		final.check, final.msg = o.check, o.msg
+	}
 	if final.check != o.check {
 		// minimisation went wrong somewhere: fall back to the original vectors
 		prog, sched = o.prog, o.sched
